@@ -300,8 +300,10 @@ def finish(ctx, level, rule, confirm=None, exhaustive=False):
     cov.update(ctx.extra)
     ev = {"property_id": ctx.prop, "tier": ctx.tier, "seed": int(ctx.seed), "level": level, "coverage": cov,
           "assumptions": ctx.assumptions, "wall_s": round(time.time() - ctx.t0, 1), "violations": len(confirmed)}
-    os.makedirs(os.path.join(ROOT, "evidence"), exist_ok=True)
-    with open(os.path.join(ROOT, "evidence", ctx.prop + ".json"), "w") as f:
+    # evidence/ always describes runs against /repo itself; runs against another tree (VERIF_REPO, used by the seeding tools) are kept apart
+    evdir = os.path.join(ROOT, "evidence") if os.path.realpath(REPO) == "/repo" else os.path.join(CACHE, "evidence_other_tree")
+    os.makedirs(evdir, exist_ok=True)
+    with open(os.path.join(evdir, ctx.prop + ".json"), "w") as f:
         json.dump(ev, f, indent=1)
     ctx.cleanup()
     return 1 if confirmed else 0
